@@ -151,6 +151,12 @@ impl<N, const NS: usize, const NE: usize> InteractionModelState<N, NS, NE> {
         }
     }
 
+    /// Read-only snapshot of the subscription table (verification hook)
+    #[cfg(feature = "verif")]
+    pub fn verif_subscriptions(&self) -> crate::verif::SubsSnapshot {
+        self.subscriptions.verif_snapshot()
+    }
+
     /// Return an in-place initializer for the state (for large `NE`, to
     /// avoid a big temporary on the stack).
     pub fn init(networks: impl Init<N>) -> impl Init<Self> {
